@@ -196,16 +196,16 @@ func ruleWriteValidated(e *Engine, r *Reporter) {
 		blind("write-behind-validation: datastore.Write not found")
 	}
 	g, _ := mustPass(ex, w, cutSpec{edge: func(f Fact) bool {
-		return f.Kind == "nil" && f.Positive && strings.Contains(describe_(f.X), "validateWriteRequest(")
+		return f.Kind == "nil" && f.Positive && strings.Contains(describe_(f.X), e.currentName("pkg/server/commands", "WriteCommand.validateWriteRequest")+"(")
 	}})
 	r.Check(g, fname(ex)+" | Write behind validateWriteRequest()==nil", e.instrPos(w), "validated first", "datastore.Write is reachable without a successful validateWriteRequest")
 	chain := []struct {
 		pkg, fn string
 		callees []string
 	}{
-		{"pkg/server/commands", "WriteCommand.validateWriteRequest", []string{"ValidateTupleForWrite", "validateNotImplicit", "validateNoDuplicatesAndCorrectSize", "ReadAuthorizationModel", "New"}},
+		{"pkg/server/commands", "WriteCommand.validateWriteRequest", []string{"ValidateTupleForWrite", e.currentName("pkg/server/commands", "WriteCommand.validateNotImplicit"), e.currentName("pkg/server/commands", "WriteCommand.validateNoDuplicatesAndCorrectSize"), "ReadAuthorizationModel", "New"}},
 		{"internal/validation", "ValidateTupleForWrite", []string{"ValidateUserObjectRelation"}},
-		{"internal/validation", "ValidateTupleForRead", []string{"validateTuplesetRestrictions", "validateTypeRestrictions", "validateCondition", "HasTypeInfo"}},
+		{"internal/validation", "ValidateTupleForRead", []string{e.currentName("internal/validation", "validateTuplesetRestrictions"), e.currentName("internal/validation", "validateTypeRestrictions"), e.currentName("internal/validation", "validateCondition"), "HasTypeInfo"}},
 	}
 	for _, cspec := range chain {
 		fn := e.Func(cspec.pkg, cspec.fn)
